@@ -155,6 +155,7 @@ struct thrmon {
 static struct thrmon thr[VH_MAXTHR];
 static _Atomic uint64_t next_msg_id = 1;
 static _Atomic long long live_msgs;
+static _Atomic long long queued_msgs; /* inserted in a queue and neither extracted nor found there at shutdown */
 
 #define T (&thr[rid < VH_MAXTHR ? rid : 0])
 #define CNT(x) (T->c[x]++)
@@ -560,6 +561,7 @@ void rs_verif_hook(unsigned point, const void *p, uint64_t a, uint64_t b)
 			uint32_t st = atomic_load_explicit(&m->verif_st, memory_order_relaxed);
 			if(st & ST_FREED)
 				vh_violation("C06", "released-buffer-inserted", "message id %llu inserted in a queue after its release", (unsigned long long)m->verif_id);
+			atomic_fetch_add_explicit(&queued_msgs, 1, memory_order_relaxed);
 			uint32_t q = atomic_fetch_add_explicit(&m->verif_q, 1, memory_order_relaxed);
 			if(q != 0)
 				vh_violation("C06", "message-queued-twice", "message id %llu {t=%a,type=%u,flags=%x} inserted while already queued (%u)", (unsigned long long)m->verif_id, m->dest_t, m->m_type, m->raw_flags, q);
@@ -569,6 +571,7 @@ void rs_verif_hook(unsigned point, const void *p, uint64_t a, uint64_t b)
 		case VH_EXTRACT: {
 			struct lp_msg *m = (struct lp_msg *)p;
 			CNT(VC_EXTRACT);
+			atomic_fetch_sub_explicit(&queued_msgs, 1, memory_order_relaxed);
 			uint32_t q = atomic_fetch_sub_explicit(&m->verif_q, 1, memory_order_relaxed);
 			if(q != 1)
 				vh_violation("C06", "extracted-message-not-queued-once", "message id %llu extracted while its queue count was %u", (unsigned long long)m->verif_id, q);
@@ -1056,6 +1059,7 @@ void rs_verif_hook(unsigned point, const void *p, uint64_t a, uint64_t b)
 		case VH_Q_FINI_LIST: {
 			struct lp_msg *m = (struct lp_msg *)p;
 			CNT(VC_QUEUE_LEFT);
+			atomic_fetch_sub_explicit(&queued_msgs, 1, memory_order_relaxed);
 			uint32_t q = atomic_fetch_sub_explicit(&m->verif_q, 1, memory_order_relaxed);
 			if(q != 1)
 				vh_violation("C06", "queue-leftover-not-queued-once", "message id %llu found in a queue at shutdown with queue count %u", (unsigned long long)m->verif_id, q);
@@ -1185,26 +1189,35 @@ void vh_describe_threads(char *buf, size_t n, char *sig, size_t nsig)
 
 void vh_post_run_checks(void)
 {
-	/* C04: the k-th GVT value is the same on every thread that consumed round k */
+	/* C04: the GVT values are the same for all threads in a given round. A thread that does not consume some round's value is not a
+	 * violation, so sequences are compared as subsequences of the longest one (values never decrease, so matching is greedy). */
+	unsigned longest = VH_MAXTHR;
 	for(unsigned i = 0; i < VH_MAXTHR; ++i)
-		for(unsigned j = i + 1; j < VH_MAXTHR; ++j) {
-			if(!thr[i].seen || !thr[j].seen)
-				continue;
-			unsigned m = thr[i].n_gvts < thr[j].n_gvts ? thr[i].n_gvts : thr[j].n_gvts;
-			for(unsigned k = 0; k < m; ++k)
-				if(thr[i].gvts[k] != thr[j].gvts[k]) {
-					vh_violation("C04", "gvt-differs-between-threads", "round %u: thread %u was told %a, thread %u was told %a", k, i, thr[i].gvts[k], j, thr[j].gvts[k]);
-					k = m;
-					j = VH_MAXTHR;
-				}
+		if(thr[i].seen && (longest == VH_MAXTHR || thr[i].n_gvts > thr[longest].n_gvts))
+			longest = i;
+	for(unsigned i = 0; i < VH_MAXTHR && longest != VH_MAXTHR; ++i) {
+		if(!thr[i].seen || i == longest)
+			continue;
+		unsigned k = 0;
+		for(unsigned j = 0; j < thr[i].n_gvts; ++j) {
+			while(k < thr[longest].n_gvts && thr[longest].gvts[k] != thr[i].gvts[j])
+				k++;
+			if(k == thr[longest].n_gvts) {
+				vh_violation("C04", "gvt-differs-between-threads", "thread %u was told GVT %a (its value #%u), thread %u was never told that value", i, thr[i].gvts[j], j, longest);
+				break;
+			}
+			k++;
 		}
-	/* C06: every message buffer handed out was handed back (single node: the at-GVT list is not used) */
-	if(vh_cfg.monitors && n_nodes == 1) {
-		long long l = atomic_load(&live_msgs);
-		if(l != 0)
-			vh_violation("C06", "messages-lost-or-leaked", "%lld message buffers were allocated and never released by the end of the run (lost in a queue hand-over or dropped from a history)", l);
+	}
+	/* C06 / C15: every message inserted in a queue was extracted or found in that queue at shutdown (nothing lost in a hand-over).
+	 * Whether buffers are handed back to the allocator at shutdown is a policy, not part of the property: reported as a counter only. */
+	if(vh_cfg.monitors) {
+		long long q = atomic_load(&queued_msgs);
+		if(q != 0)
+			vh_violation("C06", "messages-lost-in-queues", "%lld messages were inserted in a queue and neither extracted nor found there at shutdown", q);
 	}
 }
+long long vh_unreleased_messages(void) { return atomic_load(&live_msgs); }
 
 void vh_reset(void)
 {
@@ -1221,4 +1234,5 @@ void vh_reset(void)
 	}
 	memset(thr, 0, sizeof(thr));
 	atomic_store(&live_msgs, 0);
+	atomic_store(&queued_msgs, 0);
 }
